@@ -20,7 +20,7 @@ import (
 	"verif/internal/model"
 )
 
-const rule = "cases: an accepted input of each structure the property lists (certificate, key certificate, keys-and-cert incl. both fixed-size readers, destination, router identity, signature, offline signature, lease, Lease2, LeaseSet, EncryptedLeaseSet, LeaseSet2 and MetaLeaseSet with empty options/properties so that only identity, key, lease and signature parts are present) x a generated history of 1..4 steps from {invert the whole input buffer, zero it, overwrite a range, overwrite every byte slice previously returned by an accessor}. The input sits in a buffer with 64 spare bytes of capacity filled with a sentinel. Oracle: an observation = serialisation + a deep, pointer-following dump of the result of every exported argument-free method (two levels into returned library values); every observation after a step equals the first one, and the sentinel region is intact after every library call. Non-trivial: >= 1 overwrite touches the consumed region before an observation; distinct by (entry, input)."
+const rule = "(in addition a second value is parsed from a pristine copy and its buffer is inverted before any method is called on it: it must report what the first value reported) cases: an accepted input of each structure the property lists (certificate, key certificate, keys-and-cert incl. both fixed-size readers, destination, router identity, signature, offline signature, lease, Lease2, LeaseSet, EncryptedLeaseSet, LeaseSet2 and MetaLeaseSet with empty options/properties so that only identity, key, lease and signature parts are present) x a generated history of 1..4 steps from {invert the whole input buffer, zero it, overwrite a range, overwrite every byte slice previously returned by an accessor}. The input sits in a buffer with 64 spare bytes of capacity filled with a sentinel. Oracle: an observation = serialisation + a deep, pointer-following dump of the result of every exported argument-free method (two levels into returned library values); every observation after a step equals the first one, and the sentinel region is intact after every library call. Non-trivial: >= 1 overwrite touches the consumed region before an observation; distinct by (entry, input)."
 
 func TestMain(m *testing.M) { ev.Main(m, "C08", rule) }
 
@@ -238,7 +238,7 @@ func check(c Case, r *ev.Rec) error {
 		consumed = len(src)
 	}
 	// the serialisation of the first observation is taken again from the value each time
-	reparse := func() lib.Result {
+	reparseOf := func(res lib.Result) lib.Result {
 		// re-serialise through the same adapter: serialise the value we already hold
 		out := res
 		switch v := res.Value.(type) {
@@ -249,6 +249,7 @@ func check(c Case, r *ev.Rec) error {
 		}
 		return out
 	}
+	reparse := func() lib.Result { return reparseOf(res) }
 	first, panics := observe(e, reparse())
 	if len(panics) > 0 {
 		return fmt.Errorf("%s: %s", e.Name, strings.Join(panics, "; "))
@@ -303,6 +304,29 @@ func check(c Case, r *ev.Rec) error {
 			return fmt.Errorf("%s: the value changed after %s (step %d %s):%s", e.Name, what, i, st.Op, firstDiffLine(first.text, obs.text))
 		}
 		returned = obs.slices
+	}
+	// A second value is parsed from a pristine copy of the input and its buffer is
+	// overwritten before any method has been called on it (a parser that defers its
+	// copy to the first read detaches only when somebody looks). What it then reports
+	// must be what the first value reported before anything was overwritten.
+	if consumed > 0 {
+		buf2 := append(make([]byte, 0, len(src)+8), src...)
+		lib.NoSerial = true
+		res2 := e.Parse(buf2, c.Input.Typ)
+		lib.NoSerial = false
+		if res2.Accepted {
+			for j := range buf2 {
+				buf2[j] ^= 0xff
+			}
+			obs2, panics := observe(e, reparseOf(res2))
+			if len(panics) > 0 {
+				return fmt.Errorf("%s (buffer overwritten before the first read): %s", e.Name, strings.Join(panics, "; "))
+			}
+			if obs2.text != first.text {
+				return fmt.Errorf("%s: a value whose input buffer was overwritten before any of its methods was called reports something else than a value parsed from the same bytes and left alone:%s", e.Name, firstDiffLine(first.text, obs2.text))
+			}
+			r.Class("overwritten-before-first-read")
+		}
 	}
 	if touched {
 		r.NonTrivial(c, []byte(e.Name), src)
